@@ -673,6 +673,23 @@ func (u *UpServer) handle(b []byte, proto string, conn int, qc qctx, reply func(
 			logReply("dup", ser, key, len(b))
 			s.Fault("up_reply_dup")
 			reply(b)
+		case "reply_many":
+			// the same reply several times back to back (a duplicating path, a
+			// buggy pipelining server): act.Arg copies, at least 3
+			b, ser, key := mkReply()
+			logReply("reply", ser, key, len(b))
+			reply(b)
+			done()
+			// only where replies carry an id that the transport matches (UDP,
+			// pipelined streams): on a one-query-at-a-time connection a second
+			// copy would be taken for the next query's reply, and "one reply
+			// per query" is the stated precondition there (C06)
+			multi := proto == "udp" || (strings.Contains(u.Spec.Kind, "pipeline") && (proto == "tcp" || proto == "tls"))
+			for i := 1; multi && i < max(3, act.Arg); i++ {
+				logReply("dup", ser, key, len(b))
+				s.Fault("up_reply_dup")
+				reply(b)
+			}
 		case "truncate_udp":
 			// TC over UDP, full answer over anything else
 			b, ser, key := mkReply()
